@@ -65,8 +65,10 @@ Chains == {"t", "h"}
 N == Cardinality(Vals)
 Kinds == {"slc", "valset", "other"}      \* SubmitLogicCall / UpdateValset / any other evm message (UploadSmartContract)
 NoFees == <<0, 0, 0>>
-Row == [home : BOOLEAN, acct : 0..2, mevH : BOOLEAN, mevT : BOOLEAN, fee : {0} \cup FeeLevels, perf : BOOLEAN]
-BaseRow == [home |-> TRUE, acct |-> 1, mevH |-> FALSE, mevT |-> FALSE, fee |-> BaseFee, perf |-> TRUE]
+Row == [home : BOOLEAN, acct : 0..2, mevH : BOOLEAN, mevT : BOOLEAN, fee : {0} \cup FeeLevels, feeH : {0} \cup FeeLevels,
+        perf : BOOLEAN]
+BaseRow == [home |-> TRUE, acct |-> 1, mevH |-> FALSE, mevT |-> FALSE, fee |-> BaseFee, feeH |-> BaseFee, perf |-> TRUE]
+MaxRetries == 2     \* cMaxSubmitLogicCallRetries
 
 MinOf(S) == CHOOSE x \in S : \A y \in S : x <= y
 MaxOf(S) == CHOOSE x \in S : \A y \in S : y <= x
@@ -80,9 +82,13 @@ SnapOf(c) == [v \in Vals |-> IF c[v].home THEN [member |-> TRUE, acct |-> c[v].a
 AcctOn(sn, v, c) == IF c = "h" THEN (IF sn[v].member THEN 1 ELSE 0) ELSE sn[v].acct
 MevOn(sn, v, c) == IF c = "h" THEN sn[v].mevH ELSE sn[v].mevT
 
+\* mev: the call demands MEV relaying (travels with the message); retries: how often it has been re-assigned after an
+\* attested relay failure; ev: validators that attested an execution-error proof for it
 Msg(id, kind, s, a, ra, ne) ==
   [id |-> id, kind |-> kind, sender |-> s, assignee |-> a, remote |-> ra, needsEst |-> ne,
-   est |-> 0, pad |-> FALSE, err |-> FALSE, fees |-> NoFees, subs |-> {}]
+   est |-> 0, pad |-> FALSE, err |-> FALSE, fees |-> NoFees, subs |-> {}, mev |-> FALSE, retries |-> 0, ev |-> {}]
+\* a logic call assigned by the chain (first execution or retry)
+CallMsg(id, s, a, ra, mv, rt) == [Msg(id, "slc", s, a, ra, TRUE) EXCEPT !.mev = mv, !.retries = rt]
 
 -----------------------------------------------------------------------------
 (* (a) eligibility, ranking, pick -- parametrised by the tables so that the trace *)
@@ -211,9 +217,10 @@ Setup(T) ==
   /\ cur' = [v \in Vals |-> CurOf(T[v])]
   /\ snap' = SnapOf(cur')
   /\ fee' = [v \in Vals |-> T[v].fee]
+  /\ feeH' = [v \in Vals |-> T[v].feeH]
   /\ perf' = [v \in Vals |-> T[v].perf]
   /\ nrows' = N /\ res' = "setup"
-  /\ UNCHANGED <<queue, queueH, feeH, nextId>>
+  /\ UNCHANGED <<queue, queueH, nextId>>
 
 \* the same, validator by validator (exhaustive enumeration of the tables)
 SetRow(v, r) ==
@@ -221,9 +228,10 @@ SetRow(v, r) ==
   /\ cur' = [cur EXCEPT ![v] = CurOf(r)]
   /\ snap' = SnapOf(cur')
   /\ fee' = [fee EXCEPT ![v] = r.fee]
+  /\ feeH' = [feeH EXCEPT ![v] = r.feeH]
   /\ perf' = [perf EXCEPT ![v] = r.perf]
   /\ nrows' = v /\ res' = "setup"
-  /\ UNCHANGED <<queue, queueH, feeH, nextId>>
+  /\ UNCHANGED <<queue, queueH, nextId>>
 
 \* a validator changes its registration (target chain account, traits of its accounts); the snapshot is not rebuilt
 Rereg(v, a, mh, mt) ==
@@ -239,22 +247,35 @@ Resnap ==
   /\ res' = "resnap"
   /\ UNCHANGED <<cur, fee, feeH, queue, queueH, nextId, nrows>>
 
+\* the assignment proper (PickValidatorForMessage + PutMessageInQueue) as a function on the queues: used by the
+\* first execution and by the retry after an attested failure
+AssignSt(st, c, s, mevReq, t, rt) ==
+  IF Eligible(c, mevReq) = {} THEN st
+  ELSE LET p == Pick(c, mevReq, t)
+           m == CallMsg(st.next, s, p, AcctOn(snap, p, c), mevReq, rt) IN
+       [qt |-> IF c = "t" THEN st.qt \cup {m} ELSE st.qt, qh |-> IF c = "h" THEN st.qh \cup {m} ELSE st.qh, next |-> st.next + 1]
+QSt == [qt |-> queue, qh |-> queueH, next |-> nextId]
+
 Assign(c, s, mevReq, t) ==
-  /\ IF Eligible(c, mevReq) = {}
-     THEN /\ res' = "noeligible" /\ UNCHANGED <<queue, queueH, nextId>>
-     ELSE LET p == Pick(c, mevReq, t)
-              m == Msg(nextId, "slc", s, p, AcctOn(snap, p, c), TRUE) IN
-          /\ IF c = "t" THEN queue' = queue \cup {m} /\ UNCHANGED queueH
-                        ELSE queueH' = queueH \cup {m} /\ UNCHANGED queue
-          /\ nextId' = nextId + 1
-          /\ res' = "assigned"
+  /\ LET r == AssignSt(QSt, c, s, mevReq, t, 0) IN
+     /\ queue' = r.qt /\ queueH' = r.qh /\ nextId' = r.next
+     /\ res' = IF Eligible(c, mevReq) = {} THEN "noeligible" ELSE "assigned"
   /\ UNCHANGED <<tabs, nrows>>
 
-\* a message put into the queue by any other producer, assignee given
-Put(kind, s, a, ne) ==
-  /\ queue' = queue \cup {Msg(nextId, kind, s, a, 1, ne)}
+\* a validator changes the multiplicator it has on record for a chain (treasury; effective at the next election)
+SetFee(v, c, f) ==
+  /\ IF c = "t" THEN fee' = [fee EXCEPT ![v] = f] /\ UNCHANGED feeH
+                ELSE feeH' = [feeH EXCEPT ![v] = f] /\ UNCHANGED fee
+  /\ res' = "setfee"
+  /\ UNCHANGED <<cur, snap, perf, queue, queueH, nextId, nrows>>
+
+\* a message put into the queue of chain c by any other producer, assignee given
+Put(c, kind, s, a, ne) ==
+  /\ LET m == Msg(nextId, kind, s, a, 1, ne) IN
+     IF c = "t" THEN queue' = queue \cup {m} /\ UNCHANGED queueH
+                ELSE queueH' = queueH \cup {m} /\ UNCHANGED queue
   /\ nextId' = nextId + 1 /\ res' = "put"
-  /\ UNCHANGED <<tabs, nrows, queueH>>
+  /\ UNCHANGED <<tabs, nrows>>
 
 \* pure state transformers (used for composite generator steps as well)
 EstimateQ(Q, v, id, g) ==
@@ -262,16 +283,23 @@ EstimateQ(Q, v, id, g) ==
 EstimateOK(Q, v, id) == \E m \in Q : m.id = id /\ m.needsEst /\ ~\E s \in m.subs : s.v = v
 DeliverQ(Q, id) == {IF m.id = id THEN [m EXCEPT !.pad = TRUE] ELSE m : m \in Q}
 FailQ(Q, id) == {IF m.id = id /\ ~m.pad /\ ~m.err THEN [m EXCEPT !.err = TRUE] ELSE m : m \in Q}
+AttestQ(Q, v, id) == {IF m.id = id THEN [m EXCEPT !.ev = @ \cup {v}] ELSE m : m \in Q}
+Ids(Q) == {m.id : m \in Q}
 
+\* estimates are submitted for a message of either queue
 Estimate(v, id, g) ==
-  /\ IF EstimateOK(queue, v, id) THEN queue' = EstimateQ(queue, v, id, g) /\ res' = "ok"
-     ELSE UNCHANGED queue /\ res' = "fail"
-  /\ UNCHANGED <<tabs, nextId, nrows, queueH>>
+  /\ IF EstimateOK(queue \cup queueH, v, id)
+     THEN queue' = EstimateQ(queue, v, id, g) /\ queueH' = EstimateQ(queueH, v, id, g) /\ res' = "ok"
+     ELSE UNCHANGED <<queue, queueH>> /\ res' = "fail"
+  /\ UNCHANGED <<tabs, nextId, nrows>>
 
+\* CheckAndProcessEstimatedMessages: every queue, each message with the multiplicator its assignee has on record
+\* FOR THE CHAIN OF THAT QUEUE
 EndBlock ==
   /\ queue' = ElectAllT(snap, fee, queue)
+  /\ queueH' = ElectAllT(snap, feeH, queueH)
   /\ res' = "eb"
-  /\ UNCHANGED <<tabs, nextId, nrows, queueH>>
+  /\ UNCHANGED <<tabs, nextId, nrows>>
 
 Deliver(id) ==
   /\ IF \E m \in queue : m.id = id THEN queue' = DeliverQ(queue, id) /\ res' = "ok"
@@ -283,6 +311,34 @@ Fail(id) ==
      ELSE UNCHANGED queue /\ res' = "fail"
   /\ UNCHANGED <<tabs, nextId, nrows, queueH>>
 
+\* a validator attests an execution-error proof for a message (consensus message server AddEvidence)
+AttestErr(v, id) ==
+  /\ IF id \in Ids(queue \cup queueH)
+     THEN queue' = AttestQ(queue, v, id) /\ queueH' = AttestQ(queueH, v, id) /\ res' = "ok"
+     ELSE UNCHANGED <<queue, queueH>> /\ res' = "fail"
+  /\ UNCHANGED <<tabs, nextId, nrows>>
+
+\* CheckAndProcessAttestedMessages at block time t: queue by queue (home chain first), message by message in id
+\* order; a message whose error proof is attested by 2/3 of the snapshot power leaves the queue; a logic call below the
+\* retry limit is assigned again (attemptRetry -> AddSmartContractExecutionToConsensus) -- under exactly the rules of a
+\* first assignment, on the tables as they are NOW; if nobody qualifies it is dropped
+EvQuorum(sn, S) == LET k == Cardinality(S \cap Members(sn)) IN k > 0 /\ 3 * k >= 2 * Cardinality(Members(sn))
+RECURSIVE AttestLoop(_, _, _, _, _)
+AttestLoop(st, s, i, c, t) ==
+  IF i > Len(s) THEN st
+  ELSE LET m == s[i] IN
+    IF ~EvQuorum(snap, m.ev) THEN AttestLoop(st, s, i + 1, c, t)
+    ELSE LET gone == [st EXCEPT !.qt = {x \in @ : x.id # m.id}, !.qh = {x \in @ : x.id # m.id}]
+             nxt == IF m.kind = "slc" /\ m.retries < MaxRetries
+                    THEN AssignSt(gone, c, m.sender, m.mev, t, m.retries + 1) ELSE gone
+         IN  AttestLoop(nxt, s, i + 1, c, t)
+AttestAll(t) ==
+  LET s1 == AttestLoop(QSt, SortById(queueH), 1, "h", t) IN AttestLoop(s1, SortById(queue), 1, "t", t)
+EndBlockAtt(t) ==
+  /\ LET r == AttestAll(t) IN queue' = r.qt /\ queueH' = r.qh /\ nextId' = r.next
+  /\ res' = "eba"
+  /\ UNCHANGED <<tabs, nrows>>
+
 Query == res' = "query" /\ UNCHANGED <<tabs, queue, queueH, nextId, nrows>>
 
 Next ==
@@ -290,7 +346,10 @@ Next ==
   \/ \E v \in Vals, a \in 0..2, mh \in BOOLEAN, mt \in BOOLEAN : Rereg(v, a, mh, mt)
   \/ Resnap
   \/ \E c \in Chains, s \in Senders, mv \in BOOLEAN, t \in Times : Assign(c, s, mv, t)
-  \/ \E k \in Kinds, s \in Senders \cup {0}, a \in Vals, ne \in BOOLEAN : Put(k, s, a, ne)
+  \/ \E c \in Chains, k \in Kinds, s \in Senders \cup {0}, a \in Vals, ne \in BOOLEAN : (c = "h" => k = "slc") /\ Put(c, k, s, a, ne)
+  \/ \E v \in Vals, c \in Chains, f \in FeeLevels : SetFee(v, c, f)
+  \/ \E v \in Vals, id \in 1..nextId : AttestErr(v, id)
+  \/ \E t \in Times : EndBlockAtt(t)
   \/ \E v \in Vals, id \in 1..nextId, g \in Gases : Estimate(v, id, g)
   \/ EndBlock
   \/ \E id \in 1..nextId : Deliver(id) \/ Fail(id)
@@ -342,7 +401,33 @@ AssignAll ==
     /\ r # <<>> => \A t \in Times :
           /\ PickOK(snap, fe, perf, c, PickFrom(r, t), mv)
           /\ Cardinality({w \in E : Better(sc, w, PickFrom(r, t))}) < TopK
-\* action level: what an Assign step does to the queues
+\* action level: EVERY message the chain assigns -- first execution (Assign) or retry after an attested failure
+\* (EndBlockAtt) -- goes to a validator that qualifies on the tables of that moment for the chain of the job and the
+\* requirement the message carries, with the snapshot's address; nothing is enqueued if nobody qualifies
+NewOn(Q, Q2, old) == {m \in Q2 : m.id \notin old}
+AssignedAreEligible ==
+  [][res' \in {"assigned", "eba"} =>
+       LET old == Ids(queue \cup queueH) IN
+       /\ \A m \in NewOn(queue, queue', old) : m.kind = "slc" /\ m.assignee \in Vals
+              /\ PickOK(snap, fee, perf, "t", m.assignee, m.mev) /\ m.remote = AcctOn(snap, m.assignee, "t")
+       /\ \A m \in NewOn(queueH, queueH', old) : m.kind = "slc" /\ m.assignee \in Vals
+              /\ PickOK(snap, feeH, perf, "h", m.assignee, m.mev) /\ m.remote = AcctOn(snap, m.assignee, "h")]_vars
+\* a retry carries the sender and the MEV requirement of the message it replaces
+RetryKeepsRequirements ==
+  [][res' = "eba" =>
+       LET old == Ids(queue \cup queueH) IN
+       /\ \A m \in NewOn(queue, queue', old) : \E o \in queue \ queue' :
+              o.kind = "slc" /\ m.sender = o.sender /\ m.mev = o.mev /\ m.retries = o.retries + 1 /\ m.retries <= MaxRetries
+       /\ \A m \in NewOn(queueH, queueH', old) : \E o \in queueH \ queueH' :
+              o.kind = "slc" /\ m.sender = o.sender /\ m.mev = o.mev /\ m.retries = o.retries + 1 /\ m.retries <= MaxRetries]_vars
+\* fees attached by an end block use the multiplicator the assignee has on record for the chain of the message
+FeesOfTheChain ==
+  [][res' = "eb" =>
+       /\ \A m \in queue : \A n \in queue' : (n.id = m.id /\ m.est = 0 /\ n.est > 0 /\ n.kind = "slc") =>
+              n.fees = FeesFor(fee[n.assignee], CommRate, SecRate, n.est, Scale)
+       /\ \A m \in queueH : \A n \in queueH' : (n.id = m.id /\ m.est = 0 /\ n.est > 0 /\ n.kind = "slc") =>
+              n.fees = FeesFor(feeH[n.assignee], CommRate, SecRate, n.est, Scale)]_vars
+NoFeesBeforeElection == \A m \in queue \cup queueH : m.est = 0 => m.fees = NoFees
 RemoteAddressFromSnapshot ==
   [][res' = "assigned" =>
        LET nt == queue' \ queue  nh == queueH' \ queueH IN
